@@ -88,8 +88,10 @@ def run(R):
                descr="accumulate: the pending entry is taken out only at quorum")
         # the count compared is that of the version just updated: responded_peers ∈ {len(), 1}
         prep(acc)
-        cs = [c for c in compare_sites(acc) if op_local(c["b"]) in quorum(acc) or op_local(c["a"]) in quorum(acc)]
-        ok = False
+        # (comparisons of the quorum with a literal, e.g. `expected_answers > 1`, say nothing about the count and are not judged here)
+        cs = [c for c in compare_sites(acc) if (op_local(c["b"]) in quorum(acc) or op_local(c["a"]) in quorum(acc))
+              and op_local(c["a"]) is not None and op_local(c["b"]) is not None]
+        ok = bool(cs)
         for c in cs:
             other = op_local(c["a"]) if op_local(c["b"]) in quorum(acc) else op_local(c["b"])
             back = backward(acc, other)
@@ -103,7 +105,7 @@ def run(R):
                     srcs.append(t["ncallee"])
             # no arithmetic on the way: the compared value is a plain copy of len() / the literal 1
             arith = [s for blk in acc.blocks for s in blk["stmts"] if s["d"][0] in back and s["rv"]["k"] in ("bin", "un", "cast")]
-            ok = any((x or "").endswith("HashSet::len") for x in srcs) and all((x or "").endswith("HashSet::len") or x == "1_usize" for x in srcs) and not arith
+            ok = ok and any((x or "").endswith("HashSet::len") for x in srcs) and all((x or "").endswith("HashSet::len") or x == "1_usize" for x in srcs) and not arith
         if not ok:
             R.viol("C05.acc.count", "count-source", "the number compared with the quorum is not HashSet<PeerId>::len() (or 1 for a fresh version)", acc, acc.lines[0])
         R.inst("C05.acc.count", "K6 flows-to", "quorum is compared with the distinct-responder count of the version just updated", len(cs), ok)
@@ -214,6 +216,48 @@ def run(R):
             okm = False
             R.viol("C05.target.match", "register-compare", "for registers does_target_match must compare base_register() and ops() of both sides", dt, dt.lines[0])
         R.inst("C05.target.match", "K10 polarity", "match = whole-record equality, or (base register, op set) equality for registers", len(eqs), okm, {"comparisons": kinds})
+
+    # (2d) no version once reported is dropped before the split decision: the version map only grows
+    VMAP = "HashMap<xor_name::XorName, (libp2p_kad::record::Record"
+    DROPS = ("::retain", "::remove", "::remove_entry", "::clear", "::drain", "::extract_if")
+    n_sites, dropped = 0, []
+    for b in F.bodies.values():
+        if b.crate != "ant_networking":
+            continue
+        for c in b.calls:
+            at = c.get("arg_tys") or []
+            if at and VMAP in at[0]:
+                n_sites += 1
+                nc = c["ncallee"] or ""
+                if nc.startswith("std::collections::hash::map::HashMap::") and nc.endswith(DROPS):
+                    dropped.append((b, c))
+    for b, c in dropped:
+        R.viol("C05.versions.kept", "version-dropped:%s!%s" % (R.root_path(b).split("::")[-1], c["ncallee"].split("::")[-1]),
+               "%s removes entries from the map of differing versions (%s): a version reported by a peer can vanish before the split decision" % (R.root_path(b), c["ncallee"].split("::")[-1]),
+               b, c["line"])
+    if n_sites < 10:
+        R.viol("C05.versions.kept", "anchor-missing:version-map", "fewer than 10 uses of the version map type found (%d): the rule no longer sees the map" % n_sites)
+    R.inst("C05.versions.kept", "K1 forbidden-callee", "no retain/remove/clear/drain on HashMap<XorName,(Record,HashSet<PeerId>)> anywhere in ant-networking", n_sites, not dropped and n_sites >= 10)
+
+    # ... and the set handed out as SplitRecord is the whole map (copied or moved, no element-dropping adaptor on the way)
+    from rules import _chain_calls, DROPPING_ADAPTORS
+    from props.C04 import agg_field_operands
+    n_split, lossy = 0, []
+    for b in F.bodies.values():
+        if b.crate != "ant_networking" or not any("SplitRecord" in (a.get("variant") or "") for a in (b.aggregates or [])):
+            continue
+        prep(b)
+        for _blk, st, o in agg_field_operands(b, "ant_networking::error::GetRecordError", "result_map"):
+            n_split += 1
+            names, _f = _chain_calls(F, b, op_local(o))
+            bad = [n for n in names if any(n.endswith(x) or (x + "<") in n for x in DROPPING_ADAPTORS)]
+            if bad:
+                lossy.append((b, st, bad[0]))
+    for b, st, nm in lossy:
+        R.viol("C05.versions.whole", "split-filtered:%s" % R.root_path(b).split("::")[-1], "the SplitRecord set built in %s went through %s: versions can be missing" % (R.root_path(b), nm), b, st["l"])
+    if n_split < 3:
+        R.viol("C05.versions.whole", "anchor-missing:SplitRecord", "fewer than 3 SplitRecord constructions found (%d)" % n_split)
+    R.inst("C05.versions.whole", "K6 flows-to", "SplitRecord{result_map} is the whole version map", n_split, not lossy and n_split >= 3)
 
     # (4) one outcome per waiting caller
     n_sites = 0
